@@ -14,7 +14,7 @@ RULE = ('(i) real fragment streams: everything C08 generates (1-3 chained source
         'comment capture on/off), written through sourcemap.write and encode_sourcemap; (ii) synthetic streams: lists '
         'of fragments whose text may contain LF/CR/CRLF anywhere, position in {none, implied (0,0), explicit '
         '(>=1,>=1)}, optional original name, source in {None, three paths, NotImplemented}, well-formed as the write '
-        'docstring defines (the first positioned fragment names its source); both x normalize in {True, False}. '
+        'docstring defines (the first positioned fragment names its source), written in one call or (normalize off) split over up to four calls that share book, sources, names and mappings as documented; both x normalize in {True, False}. '
         'Oracle: the harness tracks the generated (line, column) at which each fragment is written; the encoded map '
         'is decoded by an independent Source Map V3 decoder (R3); every explicit fragment must decode - exact '
         'segment (normalize off) or greatest segment <= column with linear extrapolation (normalize on) - to its '
@@ -80,11 +80,20 @@ def effective_sources(frags):
     return out
 
 
-def check_stream(acc, opens, case, frags, normalize, judge_source=True):
+def check_stream(acc, opens, case, frags, normalize, judge_source=True, cuts=None):
     from calmjs.parse import sourcemap
     stream = StringIO()
     try:
-        mappings, sources, names = sourcemap.write(iter(frags), stream, normalize=normalize)
+        if cuts and not normalize:
+            # the documented multi-call form: the fragments arrive in several calls that share the
+            # book, the sources and names trackers and the mappings (normalisation is not supported there)
+            book, srcs, nms, mappings = sourcemap.default_book(), sourcemap.Names(), sourcemap.Names(), None
+            bounds = [0] + sorted(cuts) + [len(frags)]
+            for a, b in zip(bounds, bounds[1:]):
+                mappings, sources, names = sourcemap.write(iter(frags[a:b]), stream, normalize=False, book=book,
+                                                           sources=srcs, names=nms, mappings=mappings)
+        else:
+            mappings, sources, names = sourcemap.write(iter(frags), stream, normalize=normalize)
         sm = sourcemap.encode_sourcemap('out.js', mappings, sources, names)
         sm = json.loads(json.dumps(sm))
     except Exception as e:
@@ -180,7 +189,7 @@ def synthetic(draw):
             line = draw(st.integers(1, 40))
             col = draw(st.integers(1, 60))
             if draw(st.integers(0, 3)) == 0:
-                name = draw(st.sampled_from(['orig', 'longOriginalName', 'x', 'orig']))
+                name = draw(st.sampled_from(['orig', 'longOriginalName', 'x', 'orig', 'console', 'second', 'third']))
             frags.append((text, line, col, name, source))
         else:
             frags.append((text, 0, 0, None, source if source is not NotImplemented else None))
@@ -201,7 +210,7 @@ def from_json(lst):
 
 def replay(case, acc):
     if case.get('kind') == 'synthetic':
-        check_stream(acc, (), case, from_json(case['fragments']), case['normalize'])
+        check_stream(acc, (), case, from_json(case['fragments']), case['normalize'], cuts=case.get('cuts'))
     else:
         sources = [tuple(s) for s in case['sources']]
         frags, refs = c08.collect(acc, (), case, sources, case['printer'], case.get('with_comments', False))
@@ -250,15 +259,19 @@ def run_shard(shard):
     opens = shard['open_signatures']
     if shard['kind'] == 'syn':
         def body(x):
-            frags, normalize = x
-            case = {'kind': 'synthetic', 'fragments': jsonable(frags), 'normalize': normalize}
-            res = check_stream(acc, opens, case, frags, normalize)
+            frags, normalize, cuts = x
+            cuts = sorted(set(c % (len(frags) + 1) for c in cuts)) if not normalize else []
+            case = {'kind': 'synthetic', 'fragments': jsonable(frags), 'normalize': normalize, 'cuts': cuts}
+            res = check_stream(acc, opens, case, frags, normalize, cuts=cuts)
+            if cuts:
+                acc.label('syn_multi_call_%d' % (len(cuts) + 1))
             acc.case((repr(frags), normalize), nontrivial(frags, res),
                      {'fragments': jsonable(frags), 'normalize': normalize})
             acc.label('syn_normalize_%s' % normalize)
             if res:
                 acc.extra['fragments_judged'] = acc.extra.get('fragments_judged', 0) + res['judged']
-        run_given(st.tuples(synthetic(), st.booleans()), body, shard['n'], shard['hseed'], acc)
+        run_given(st.tuples(synthetic(), st.booleans(), st.one_of(st.just([]), st.lists(st.integers(0, 14), max_size=3))),
+                  body, shard['n'], shard['hseed'], acc)
     else:
         def real(texts, printer_name, wc, normalize, origin):
             sources = [(c08.PATHS[i], t) for i, t in enumerate(texts)]
